@@ -196,8 +196,9 @@ def _conform_filename(
         **_default_options(node=original_node, search=search, type_wanted=type_wanted)()
     )
     if original_node is None:
+        parsed_ast.body.append(replacement_node)
         cdd.shared.emit.file.file(
-            replacement_node, filename=filename, mode="a", skip_black=False
+            parsed_ast, filename=filename, mode="wt", skip_black=False
         )
         return filename, True
     assert len(search) > 0
